@@ -1,1 +1,169 @@
-def hello := "world"
+/-! Shared basics: byte strings, hex, Go-map-as-association-list, strconv.Atoi -/
+namespace AM
+
+/-- byte strings; a byte `b` is the character with code `b` (0–255) -/
+abbrev Str := List Char
+
+def hexDigit (n : Nat) : Char :=
+  if n < 10 then Char.ofNat (48 + n) else Char.ofNat (87 + n)
+
+def hexVal (c : Char) : Option Nat :=
+  let n := c.toNat
+  if 48 ≤ n ∧ n ≤ 57 then some (n - 48)
+  else if 97 ≤ n ∧ n ≤ 102 then some (n - 87)
+  else if 65 ≤ n ∧ n ≤ 70 then some (n - 55)
+  else none
+
+/-- hex encoding used on the line protocol; the empty string is `-` -/
+def toHex (s : Str) : String :=
+  if s.isEmpty then "-" else
+  String.ofList (s.flatMap fun c => [hexDigit (c.toNat / 16 % 16), hexDigit (c.toNat % 16)])
+
+def ofHexAux : List Char → Option Str
+  | [] => some []
+  | a :: b :: r => do
+      let x ← hexVal a
+      let y ← hexVal b
+      let t ← ofHexAux r
+      pure (Char.ofNat (x * 16 + y) :: t)
+  | _ => none
+
+def ofHex (s : String) : Option Str :=
+  if s == "-" then some [] else ofHexAux s.toList
+
+/-! ### association lists with Go map semantics (unique keys, store overwrites) -/
+
+def aLookup {κ α} [DecidableEq κ] (k : κ) : List (κ × α) → Option α
+  | [] => none
+  | (k', v) :: r => if k' = k then some v else aLookup k r
+
+def aErase {κ α} [DecidableEq κ] (k : κ) : List (κ × α) → List (κ × α)
+  | [] => []
+  | (k', v) :: r => if k' = k then aErase k r else (k', v) :: aErase k r
+
+def aStore {κ α} [DecidableEq κ] (k : κ) (v : α) (m : List (κ × α)) : List (κ × α) :=
+  (k, v) :: aErase k m
+
+theorem mem_aErase {κ α} [DecidableEq κ] {k : κ} {m : List (κ × α)} {x : κ × α} :
+    x ∈ aErase k m → x ∈ m ∧ x.1 ≠ k := by
+  induction m with
+  | nil => simp [aErase]
+  | cons y r ih =>
+    obtain ⟨k', v⟩ := y
+    simp only [aErase]
+    split
+    · intro h; have := ih h; exact ⟨List.mem_cons_of_mem _ this.1, this.2⟩
+    · rename_i hne
+      intro h
+      rcases List.mem_cons.mp h with rfl | h
+      · exact ⟨List.mem_cons_self, hne⟩
+      · have := ih h; exact ⟨List.mem_cons_of_mem _ this.1, this.2⟩
+
+theorem mem_aErase_of {κ α} [DecidableEq κ] {k : κ} {m : List (κ × α)} {x : κ × α} :
+    x ∈ m → x.1 ≠ k → x ∈ aErase k m := by
+  induction m with
+  | nil => simp
+  | cons y r ih =>
+    obtain ⟨k', v⟩ := y
+    intro h hne
+    simp only [aErase]
+    rcases List.mem_cons.mp h with rfl | h
+    · simp [hne]
+    · split
+      · exact ih h hne
+      · exact List.mem_cons_of_mem _ (ih h hne)
+
+theorem mem_aStore {κ α} [DecidableEq κ] {k : κ} {v : α} {m : List (κ × α)} {x : κ × α} :
+    x ∈ aStore k v m → x = (k, v) ∨ (x ∈ m ∧ x.1 ≠ k) := by
+  intro h
+  rcases List.mem_cons.mp h with rfl | h
+  · exact Or.inl rfl
+  · exact Or.inr (mem_aErase h)
+
+theorem aLookup_mem {κ α} [DecidableEq κ] {k : κ} {m : List (κ × α)} {v : α} :
+    aLookup k m = some v → (k, v) ∈ m := by
+  induction m with
+  | nil => simp [aLookup]
+  | cons y r ih =>
+    obtain ⟨k', v'⟩ := y
+    simp only [aLookup]
+    split
+    · rename_i h; intro hv; cases hv; subst h; exact List.mem_cons_self
+    · intro hv; exact List.mem_cons_of_mem _ (ih hv)
+
+theorem aLookup_none {κ α} [DecidableEq κ] {k : κ} {m : List (κ × α)} :
+    aLookup k m = none → ∀ x ∈ m, x.1 ≠ k := by
+  induction m with
+  | nil => simp
+  | cons y r ih =>
+    obtain ⟨k', v'⟩ := y
+    simp only [aLookup]
+    split
+    · intro h; cases h
+    · rename_i hne
+      intro h x hx
+      rcases List.mem_cons.mp hx with rfl | hx
+      · exact hne
+      · exact ih h x hx
+
+/-- keys of an association list are pairwise distinct -/
+def aUnique {κ α} (m : List (κ × α)) : Prop := (m.map (·.1)).Nodup
+
+theorem aUnique_erase {κ α} [DecidableEq κ] {k : κ} {m : List (κ × α)} (h : aUnique m) :
+    aUnique (aErase k m) := by
+  induction m with
+  | nil => simpa [aErase] using h
+  | cons y r ih =>
+    obtain ⟨k', v⟩ := y
+    simp only [aUnique, List.map_cons, List.nodup_cons] at h
+    simp only [aErase]
+    split
+    · exact ih h.2
+    · simp only [aUnique, List.map_cons, List.nodup_cons]
+      refine ⟨?_, ih h.2⟩
+      intro hm
+      obtain ⟨x, hx, hk⟩ := List.mem_map.mp hm
+      exact h.1 (List.mem_map.mpr ⟨x, (mem_aErase hx).1, hk⟩)
+
+theorem aUnique_store {κ α} [DecidableEq κ] {k : κ} {v : α} {m : List (κ × α)} (h : aUnique m) :
+    aUnique (aStore k v m) := by
+  simp only [aStore, aUnique, List.map_cons, List.nodup_cons]
+  refine ⟨?_, aUnique_erase h⟩
+  intro hm
+  obtain ⟨x, hx, hk⟩ := List.mem_map.mp hm
+  exact (mem_aErase hx).2 hk
+
+theorem aLookup_of_mem {κ α} [DecidableEq κ] {k : κ} {v : α} {m : List (κ × α)}
+    (hu : aUnique m) (h : (k, v) ∈ m) : aLookup k m = some v := by
+  induction m with
+  | nil => cases h
+  | cons y r ih =>
+    obtain ⟨k', v'⟩ := y
+    simp only [aUnique, List.map_cons, List.nodup_cons] at hu
+    simp only [aLookup]
+    rcases List.mem_cons.mp h with heq | h
+    · cases heq; simp
+    · split
+      · rename_i hk; subst hk
+        exact absurd (List.mem_map.mpr ⟨(k', v), h, rfl⟩) hu.1
+      · exact ih hu.2 h
+
+/-! ### strconv.Atoi on byte strings (sign, decimal digits; no overflow modelled below 2^63) -/
+
+def digitsVal : Str → Option Nat
+  | [] => some 0
+  | s => s.foldl (fun acc c => acc.bind fun n =>
+      if c.isDigit then some (n * 10 + (c.toNat - 48)) else none) (some 0)
+
+/-- `strconv.Atoi`: optional sign, at least one digit, digits only; values beyond the int64
+range are a range error (`none`). -/
+def atoi (s : Str) : Option Int :=
+  match s with
+  | [] => none
+  | '-' :: r => if r.isEmpty then none else
+      (digitsVal r).bind fun n => if n ≤ 9223372036854775808 then some (-(n : Int)) else none
+  | '+' :: r => if r.isEmpty then none else
+      (digitsVal r).bind fun n => if n ≤ 9223372036854775807 then some (n : Int) else none
+  | r => (digitsVal r).bind fun n => if n ≤ 9223372036854775807 then some (n : Int) else none
+
+end AM
